@@ -688,10 +688,22 @@ PROPS["C19"]["statement_coverage"] += "; persistence inside the system models pr
 # corpus (run FIRST): the crate's own Orswot test scenarios ported to scripts, the witness of the repaired defect F11
 # --------------------------------------------------------------------------------------------
 _CORPUS_ORSWOT = dict(name="repo_orswot_tests.txt", corpus=True, quick=1, thorough=1)
-for _pid in ("C01", "C02", "C03", "C04", "C07", "C08", "C09", "C20"):
+# (not under C07: two of the crate's scenarios deliberately use one actor at two replicas, where derived dots are NOT fresh – the premise C07 excludes)
+for _pid in ("C01", "C02", "C03", "C04", "C08", "C09", "C20"):
     PROPS[_pid]["profiles"] = [_CORPUS_ORSWOT] + PROPS[_pid]["profiles"]
 PROPS["C18"]["profiles"] = [dict(name="c18_f11_collision.txt", corpus=True, quick=1, thorough=1)] + PROPS["C18"]["profiles"]
 
 _CORPUS_MAP = dict(name="repo_map_tests.txt", corpus=True, quick=1, thorough=1)
 for _pid in ("C05", "C01", "C02", "C03", "C07", "C08", "C09", "C20"):
     PROPS[_pid]["profiles"] = [_CORPUS_MAP] + PROPS[_pid]["profiles"]
+
+# system-level model for MerkleReg (Props/SysMerkle.lean): nodes only created by write(value, read().hashes()); one remaining hypothesis: no hash collision on the log
+PROPS["C15"]["lean_targets"] = PROPS["C15"]["lean_targets"] + ["CrdtModel.Props.SysMerkle"]
+PROPS["C15"]["required_theorems"] += ["Crdt.SysMerkle." + t for t in ["run_reach", "run_children_in_log", "run_acyclic", "run_state_function_of_node_set", "run_read_eq_heads",
+    "run_no_orphans_when_complete", "run_visible_iff_ancestors", "run_eventually_visible", "run_written_children", "run_written_fresh", "run_write_replaces_heads_partial",
+    "run_write_replaces_heads_new", "write_not_sole_head", "run_merge_comm", "run_dup_noop"]]
+PROPS["C15"]["explanation"] += (" System level (Props/SysMerkle.lean): in the model whose nodes are only created by write(value, read().hashes()) and delivered in ANY order (duplicates, merges, snapshots), "
+                                "Reach-derivability of every replica, closure of the log under children, acyclicity of the child relation are invariants; with the single remaining hypothesis 'no hash collision among the nodes that ever exist' "
+                                "(sha3 is abstract) C15 holds for every execution: same node set => same state, read = heads, a node becomes visible exactly when all its ancestors (which ARE in the log) have arrived, a complete replica has no orphans. "
+                                "The clause 'writing on top of the heads read replaces them' needs 'no received node lists the new node as a child' – false in general when another site created the same node earlier (write_not_sole_head, kernel-checked; content addressing) "
+                                "– true for a genuinely new node (run_write_replaces_heads_new).")
